@@ -94,11 +94,13 @@ theorem build_tasks : ∀ (v : View) (st : St), v.core = true → ∀ e, e ∈ (
         · exact Or.inr (by simp [effsOf, h1])
     · exact Or.inr (by simp [effsOf, h])
   | «show» c a b _ _ => intro st hc; simp [View.core] at hc
+  | scope sid d kid _ => intro st hc; simp [View.core] at hc
+  | forRows sel lists row _ => intro st hc; simp [View.core] at hc
   | forKeyed sel lists =>
     intro st _ e h
     rw [build_forKeyed] at h ⊢
     dsimp only at h ⊢
-    obtain ⟨n, hbn⟩ := buildFor_st (newEff st sel).2.2 (listAt lists (newEff st sel).2.1)
+    obtain ⟨n, hbn⟩ := buildFor_st (newEff st (st.res sel)).2.2 (listAt lists (newEff st (st.res sel)).2.1)
     rw [hbn] at h
     simp only [St.spawn, List.mem_append, List.mem_singleton] at h
     rcases h with h | h
@@ -303,6 +305,8 @@ theorem render_congr {K : Nat} {ρ ρ' : Nat → Int} (h : ∀ i, i < K → ρ i
     intro hw
     simp only [View.wf, Bool.and_eq_true] at hw
     simp only [render, evalPure_congr h sel hw.1.1.1.1]
+  | scope sid d kid _ => intro hw; simp [View.wf] at hw
+  | forRows sel lists row _ => intro hw; simp [View.wf] at hw
 
 /-- at an idle point of a state satisfying the leaf invariant the DOM is the fresh render -/
 theorem Inv0.settled {K : Nat} {v : View} {st : St} (h : Inv0 K v st) (hw : v.wf K = true)
